@@ -784,4 +784,266 @@ class C12(Oracle):
         return out
 
 
-ORACLES = {'C18': C18, 'C08': C08, 'C09': C09, 'C10': C10, 'C11': C11, 'C12': C12}
+
+OBS_SHORT = {'ft': 'fully_transparent', 'po': 'partially_occluded', 'rt': 'raytracing', 'srt': 'stochastic_raytracing'}
+
+
+def obs_case_from_line(line):
+    t = line.split()
+    if not t or t[0] != 'obs':
+        return None
+    try:
+        st, j = dec_state(t, 2)
+        area = [int(x) for x in t[j : j + 4]]
+        return {'kind': 'obs', 'which': OBS_SHORT[t[1]], 'state': ' '.join(t[2:j]), 'area': area, 'seed': 0}
+    except Exception:
+        return None
+
+
+def gen_obs_cases(rng, whichs=('fully_transparent', 'partially_occluded', 'raytracing', 'stochastic_raytracing'), lim=3):
+    from harness.corr_obs import rand_area
+
+    while True:
+        s = gen.random_state(rng, max_h=5, max_w=5, p_floor=0.55)
+        which = rng.choice(whichs)
+        area = rand_area(rng, lim=lim, force_bottom=(which == 'partially_occluded'), contains_origin=(which in ('raytracing', 'stochastic_raytracing')))
+        yield {'kind': 'obs', 'which': which, 'state': enc_state(s), 'area': [area.ymin, area.ymax, area.xmin, area.xmax], 'seed': rng.randrange(2**32)}
+
+
+def real_obs(which, s, area, seed=0, rng=None):
+    import numpy as np
+    from gym_gridverse.envs import observation_functions as of
+
+    return of.observation_function_registry[which](s, area=area, rng=rng if rng is not None else np.random.default_rng(seed))
+
+
+class C05(Oracle):
+    prop = 'C05'
+
+    def gen(self, rng):
+        return gen_obs_cases(rng)
+
+    def from_line(self, line):
+        return obs_case_from_line(line)
+
+    def check(self, c):
+        from gym_gridverse.grid_object import Hidden
+
+        out = []
+        s = state_from_str(c['state'])
+        a = c['area']
+        area = Area((a[0], a[1]), (a[2], a[3]))
+        try:
+            o = real_obs(c['which'], s, area, c['seed'])
+        except NotImplementedError:
+            if c['which'] == 'partially_occluded' and area.ymax != 0:
+                return out
+            return [V('observation/raises', f'{c}')]
+        except ValueError:
+            pov = Position(-area.ymin, -area.xmin)
+            if c['which'] in ('raytracing', 'stochastic_raytracing') and not (0 <= pov.y < area.height and 0 <= pov.x < area.width):
+                return out
+            return [V('observation/raises', f'{c}')]
+        except Exception as e:
+            return [V('observation/raises', f'{type(e).__name__} {c}')]
+        if o.grid.shape.as_tuple != (area.height, area.width):
+            out.append(V('observation/shape', f'{c}'))
+            return out
+        t = s.agent.transform
+        for i in range(area.height):
+            for j in range(area.width):
+                wp = t * Position(i + area.ymin, j + area.xmin)
+                cell = o.grid[i, j]
+                inside = in_grid(s.grid, wp)
+                if not inside:
+                    if not isinstance(cell, Hidden):
+                        out.append(V('observation/outside-grid-not-hidden', f'{c} cell {(i, j)}'))
+                elif not isinstance(cell, Hidden):
+                    if cell is not s.grid[wp]:
+                        out.append(V('observation/shows-wrong-object', f'{c} cell {(i, j)} world {wp}'))
+                elif c['which'] == 'fully_transparent' and not isinstance(s.grid[wp], Hidden):
+                    out.append(V('observation/transparent-hides-cell', f'{c} cell {(i, j)}'))
+        if o.agent.position != Position(-area.ymin, -area.xmin) or o.agent.orientation != O.F:
+            out.append(V('observation/agent-pose', f'{c}'))
+        if o.agent.grid_object is not s.agent.grid_object:
+            out.append(V('observation/held-item', f'{c}'))
+        return out
+
+
+def rot_world(s, k):
+    """the world rotated by k: library grid product, agent carried along"""
+    from gym_gridverse.agent import Agent
+    from gym_gridverse.state import State
+
+    g = s.grid
+    h, w = g.shape.height, g.shape.width
+    p = s.agent.position
+    rho = {O.F: Position(p.y, p.x), O.R: Position(w - 1 - p.x, p.y), O.B: Position(h - 1 - p.y, w - 1 - p.x), O.L: Position(p.x, h - 1 - p.y)}[k]
+    return State(g * k, Agent(rho, (-k) * s.agent.orientation, s.agent.grid_object))
+
+
+class C07(Oracle):
+    prop = 'C07'
+
+    def gen(self, rng):
+        g0 = gen_obs_cases(rng, whichs=('fully_transparent', 'partially_occluded', 'raytracing'))
+        while True:
+            c = next(g0)
+            c['k'] = ORIENT_TOK[rng.choice(ORIENTS)]
+            yield c
+
+    def from_line(self, line):
+        c = obs_case_from_line(line)
+        if c is None or c['which'] == 'stochastic_raytracing':
+            return None
+        c['k'] = 'R'
+        return c
+
+    def check(self, c):
+        out = []
+        s = state_from_str(c['state'])
+        a = c['area']
+        area = Area((a[0], a[1]), (a[2], a[3]))
+        ks = [TOK_ORIENT[c['k']]] if c.get('k') else ORIENTS
+        for k in ks:
+            s2 = rot_world(s, k)
+            # sanity of the rotated world itself (object identities)
+            p = s.agent.position
+            if in_grid(s.grid, p) and s2.grid[s2.agent.position] is not s.grid[p]:
+                out.append(V('rotworld/ill-defined', f'{c} k={k}'))
+                continue
+            r1 = r2 = None
+            try:
+                r1 = enc_state(real_obs(c['which'], s, area))
+            except Exception as e:
+                r1 = 'ERR ' + type(e).__name__
+            try:
+                r2 = enc_state(real_obs(c['which'], s2, area))
+            except Exception as e:
+                r2 = 'ERR ' + type(e).__name__
+            if r1 != r2:
+                out.append(V('observation/not-rotation-invariant', f'{c} k={k}: {r1} vs {r2}'))
+        return out
+
+
+class C06(Oracle):
+    prop = 'C06'
+
+    def gen(self, rng):
+        g0 = gen_obs_cases(rng, whichs=('partially_occluded', 'raytracing', 'stochastic_raytracing'))
+        while True:
+            c = next(g0)
+            c['pick'] = rng.randrange(10**6)
+            c['repl'] = rng.choice(gen.ALPHABET_FULL)
+            yield c
+
+    def from_line(self, line):
+        c = obs_case_from_line(line)
+        if c is None or c['which'] == 'fully_transparent':
+            return None
+        c['pick'] = 0
+        c['repl'] = 'W'
+        return c
+
+    def check(self, c):
+        from gym_gridverse.grid_object import Floor, Hidden
+        from harness.codec import dec_obj
+        from harness.recrng import ScriptRng
+
+        out = []
+        s = state_from_str(c['state'])
+        a = c['area']
+        area = Area((a[0], a[1]), (a[2], a[3]))
+        if not in_grid(s.grid, s.agent.position):
+            return out
+        which = c['which']
+        t = s.agent.transform
+        H, W = area.height, area.width
+        if which == 'stochastic_raytracing':
+            from harness.corr_obs import counts, rays_for
+
+            rays = rays_for(area)
+            if rays is None:
+                return out
+            try:
+                det = real_obs('raytracing', s, area)
+                lo = real_obs(which, s, area, rng=ScriptRng([0] * (H * W)))
+                hi = real_obs(which, s, area, rng=ScriptRng([2**53 - 1] * (H * W)))
+                rnd = real_obs(which, s, area, c['seed'])
+            except Exception as e:
+                return [V('stochastic_raytracing/raises', f'{type(e).__name__} {c}')]
+            view = s.grid.subgrid(t * area) * s.agent.orientation
+            num, den = counts(view, rays)
+            for i in range(H):
+                for j in range(W):
+                    for name, o in (('zero-draw', lo), ('max-draw', hi), ('random', rnd)):
+                        if not isinstance(o.grid[i, j], Hidden) and isinstance(det.grid[i, j], Hidden):
+                            out.append(V('stochastic_raytracing/shows-never-lit-cell', f'{c} cell {(i, j)} ({name})'))
+                    if num[i, j] == den[i, j] and den[i, j] > 0 and not isinstance(view[i, j], Hidden):
+                        for name, o in (('zero-draw', lo), ('max-draw', hi), ('random', rnd)):
+                            if isinstance(o.grid[i, j], Hidden):
+                                out.append(V('stochastic_raytracing/hides-always-lit-cell', f'{c} cell {(i, j)} ({name})'))
+            return out
+        try:
+            o = real_obs(which, s, area)
+        except (NotImplementedError, ValueError):
+            return out
+        pov = Position(-area.ymin, -area.xmin)
+        if not (0 <= pov.y < H and 0 <= pov.x < W):
+            return out
+        vis = [[not isinstance(o.grid[i, j], Hidden) for j in range(W)] for i in range(H)]
+        view = s.grid.subgrid(t * area) * s.agent.orientation
+        # self-visible (the own cell holds a world object, so it is shown as such)
+        if not vis[pov.y][pov.x] and not isinstance(view[pov], Hidden):
+            out.append(V(f'{which}/own-cell-hidden', f'{c}'))
+        # chain: flood over visible transparent cells (8-adjacency) reaches every visible cell
+        seen = {(pov.y, pov.x)}
+        stack = [(pov.y, pov.x)]
+        while stack:
+            y, x = stack.pop()
+            if view[y, x].blocks_vision:
+                continue
+            for dy in (-1, 0, 1):
+                for dx in (-1, 0, 1):
+                    q = (y + dy, x + dx)
+                    if 0 <= q[0] < H and 0 <= q[1] < W and q not in seen and vis[q[0]][q[1]]:
+                        seen.add(q)
+                        stack.append(q)
+        for i in range(H):
+            for j in range(W):
+                if vis[i][j] and (i, j) not in seen and not isinstance(view[i, j], Hidden):
+                    out.append(V(f'{which}/visible-cell-not-linked', f'{c} cell {(i, j)}'))
+        # non-interference: replace a hidden / out-of-view world cell
+        gh, gw = s.grid.shape.height, s.grid.shape.width
+        inview = {}
+        for i in range(H):
+            for j in range(W):
+                wp = t * Position(i + area.ymin, j + area.xmin)
+                inview[wp.yx] = (i, j)
+        cands = [p for p in s.grid.area.positions() if p.yx not in inview or not vis[inview[p.yx][0]][inview[p.yx][1]]]
+        if cands:
+            p = cands[c['pick'] % len(cands)]
+            s2 = fast_copy(s)
+            s2.grid[p] = dec_obj(c['repl'])
+            try:
+                o2 = real_obs(which, s2, area)
+                if enc_state(o2) != enc_state(o):
+                    out.append(V(f'{which}/hidden-cell-interferes', f'{c} world cell {p} -> {c["repl"]}'))
+            except Exception as e:
+                out.append(V(f'{which}/hidden-cell-interferes', f'{c} world cell {p}: {type(e).__name__}'))
+        # monotonicity: make a visible opaque cell transparent
+        opq = [(i, j) for i in range(H) for j in range(W) if vis[i][j] and view[i, j].blocks_vision and (i, j) != (pov.y, pov.x)]
+        if opq:
+            i, j = opq[c['pick'] % len(opq)]
+            wp = t * Position(i + area.ymin, j + area.xmin)
+            s2 = fast_copy(s)
+            s2.grid[wp] = Floor()
+            o2 = real_obs(which, s2, area)
+            for y in range(H):
+                for x in range(W):
+                    if vis[y][x] and isinstance(o2.grid[y, x], Hidden) and not isinstance(view[y, x], Hidden):
+                        out.append(V(f'{which}/not-monotone', f'{c} opening {(i, j)} hides {(y, x)}'))
+        return out
+
+
+ORACLES = {'C18': C18, 'C08': C08, 'C09': C09, 'C10': C10, 'C11': C11, 'C12': C12, 'C05': C05, 'C06': C06, 'C07': C07}
